@@ -28,6 +28,7 @@ EXPLANATION = (
     "Decides these necessary mechanisms, not equality of outputs and graphs for all histories. "
     'Also: every Python-level OUTDATED->BUILT revalidation is followed by the consumer notification on the same path; after_recycle overwrites every declaration attribute on every path; after_lost_product hands the invalidation up the detached creator chain; can_recycle compares each list with its own initial (dynamic=False) counterpart.'
     ' R-C01-10 reset_for_rerun drops or detaches everything a run added (eight obligations with def-use from each query to its action); R-C01-11 a reverted optional step is reset like a rerun.'
+    ' R-C01-14 also rejects a selection between the launched and the stored shell flag / overrides by truth value (False and {} are values).'
 )
 ASSUMPTIONS = ["step hashes are sound (C13)", "the finite set of change reactions enumerated here is complete (files, env vars, globs)"]
 
